@@ -8,6 +8,11 @@ and every multi-entry (2-3) dict-form / tuple-form key spec over the position
 kinds top-level / nested-existing / nested-fresh;
 x every stream of <= 3 records from a 3-record menu; run on the real
 `TreeTransform(...).make().iterate(stream)` (and `make()(record)`).
+Falsy-but-valid keys (Index(0), the mapping key 0, the empty tuple of keys (),
+the empty path Key()) meet every key position of every operator in a second
+world: records keyed by 0 / 1 (int-keyed dict, tuple, list) and an operator
+menu made by `_falsy_ops` (see FALSY_* below); a few of them also sit in the
+main menu so that the named-key operators compose with them.
 Oracle: vmc/oracles/pipeline_ref.py (plain-Python interpreter); the caller's
 records are deep-compared with a snapshot, and object identity is checked both
 ways (untouched sub-trees shared, updated sub-trees not the caller's objects).
@@ -64,7 +69,9 @@ def fd3(*a, **k):
 
 def pred(*a, **k):
   """Keeps records whose first selected value is an odd int / a flat dict /
-  a 2-element list."""
+  a 2-element list; every record when it is given no argument at all."""
+  if not a and not k:
+    return True
   x = a[0] if a else next(iter(k.values()))
   if isinstance(x, bool):
     return x
@@ -103,10 +110,20 @@ def make_record(i):
     return {'a': 1, 'b': 2}
   if i == 1:
     return {'a': 4, 'b': 5, 'c': {'d': [10, 20], 'e': {'g': 3}}}
-  return [7, [8, 9]]
+  if i == 2:
+    return [7, [8, 9]]
+  # the records of the falsy-key world: everything is addressed by 0 / 1, and
+  # `pred` tells the value under 0 from the whole record for each of them
+  if i == 3:
+    return {0: 2, 1: [3, 4]}
+  if i == 4:
+    return (4, [5, 6])
+  return [7, [8, 9], 3]
 
 
-RECORD_NAMES = ('flat-dict', 'nested-dict', 'bare-list')
+RECORD_NAMES = ('flat-dict', 'nested-dict', 'bare-list',
+                'int-keyed-dict', 'tuple', 'list-of-3')
+MAIN_RECORDS, FALSY_RECORDS = (0, 1, 2), (3, 4, 5)
 
 
 # ---- operator menu -----------------------------------------------------------
@@ -196,6 +213,19 @@ MENU = [
 ]
 
 
+# Falsy but valid keys among the named-key operators (the main records): the
+# index 0, the mapping key 0 and the empty tuple of keys in every key position.
+MENU += [
+    _op('select(a,[0])', 'select', inp=P('a'), out=P(I(0))),
+    _op('apply(f1,a,0)', 'apply', fn='f1', inp=P('a'), out=P(0)),
+    _op('assign(0,f1,a)', 'assign', fn='f1', inp=P('a'), out=P(0)),
+    _op('filter(pred,[0])', 'filter', fn='pred', inp=P(I(0))),
+    _op('filter(pred,())', 'filter', fn='pred', inp=[]),
+    _op('sink(S,[0])', 'sink', inp=P(I(0))),
+    _op('sink(S,())', 'sink', inp=[]),
+]
+
+
 # Multi-entry key forms.  Every position of a 2- or 3-entry key spec is one of
 #   T  a top-level key                           x / y / z
 #   E  a nested path into a container that the nested-dict record already has
@@ -250,6 +280,116 @@ _SINGLE = {o['name'] for o in MENU}
 MENU += [o for o in _multi_entry_ops() if o['name'] not in _SINGLE]
 BY_NAME = {o['name']: o for o in MENU}
 assert len(BY_NAME) == len(MENU)
+
+
+# ---- the falsy-key world -------------------------------------------------------
+# Keys that Python calls falsy and that are keys like any other:
+#   [0]     Key.Index(0)   (an int subclass equal to 0)
+#   0       the mapping key 0 (on a sequence: the same element as [0])
+#   ()      the empty tuple of keys: no argument / no output key
+#   Path()  the empty path Key(): the root, like SELF
+# Every one of them sits in every key position of every operator: input key
+# (alone, in a tuple of keys, as a keyword argument), output key of select and
+# apply (alone, in a tuple with SKIP / with a second key, in a dict-form spec),
+# assign key (alone, in a tuple, in a dict-form spec).  [1] / 1 are the truthy
+# controls the chains are composed with.  All records of this world (FALSY_
+# RECORDS) are addressed by 0 and 1, so that every operator finds its inputs.
+Z0 = (P(I(0)), P(0))                 # falsy one-step keys
+NOKEY, ROOT = [], P()
+ONE = P(I(1))
+
+
+def spec_name(k):
+  if isinstance(k, list):
+    return '(%s)' % ','.join(spec_name(e) for e in k)
+  if isinstance(k, dict):
+    return '{%s}' % ','.join('%s:%s' % (
+        n if isinstance(n, str) else spec_name(n), spec_name(v))
+                             for n, v in k.items())
+  if k is SKIP:
+    return 'SKIP'
+  return path_name(k) if k else 'Path()'
+
+
+def _falsy_ops():
+  ops = []
+
+  def add(kind, fn=None, inp=None, out=None):
+    args = [a for a in (fn, None if inp is None else spec_name(inp),
+                        None if out is None else spec_name(out))
+            if a is not None]
+    if kind == 'assign':     # the library's argument order: key, fn, inputs
+      args = ([spec_name(out)] if out is not None else []) + [
+          a for a in (fn, None if inp is None else spec_name(inp))
+          if a is not None]
+    if kind == 'sink':
+      args = ['S'] + args
+    kw = {}
+    if fn is not None:
+      kw['fn'] = fn
+    if inp is not None:
+      kw['inp'] = inp
+    if out is not None:
+      kw['out'] = out
+    ops.append(_op('%s(%s)' % (kind, ','.join(args)), kind, **kw))
+
+  # input side
+  for k in Z0 + (NOKEY, ROOT):
+    add('select', inp=k)
+    add('apply', 'f1', inp=k)
+    add('apply', 'f2', inp=k)          # a 2-tuple record: addressable by 0 / 1
+    add('assign', 'f1', inp=k, out=ONE)
+    add('filter', 'pred', inp=k)
+    add('sink', inp=k)
+  for k in Z0 + (ROOT,):
+    add('apply', 'f1', inp={'x': k})
+    add('assign', 'f1', inp={'x': k}, out=ONE)
+    add('filter', 'pred', inp={'x': k})
+    add('sink', inp={'x': k})
+  for k in Z0:
+    add('select', inp=[k, ONE])
+    add('select', inp=[ONE, k])
+    add('apply', 'f2', inp=[ONE, k])
+    add('filter', 'pred', inp=[k, ONE])
+    add('sink', inp=[k, ONE])
+  # output side
+  for k in Z0 + (NOKEY, ROOT):
+    add('select', inp=ONE, out=k)
+    add('apply', 'f1', inp=ONE, out=k)
+    add('assign', 'f1', inp=ONE, out=k)
+  for k in Z0:
+    add('apply', 'f2', inp=ONE, out=[k, SKIP])
+    add('apply', 'f2', inp=ONE, out=[SKIP, k])
+    add('apply', 'fd', inp=ONE, out={k: P('p')})
+    add('assign', 'f2', inp=ONE, out=[k, ONE])
+    add('assign', 'fd', inp=ONE, out={k: P('p')})
+  add('apply', 'f2', inp=ONE, out=[P(I(0)), P(I(1))])
+  add('apply', 'f2', inp=ONE, out=[P(0), P(1)])
+  add('select', inp=[ONE, P(I(0))], out=[P(I(0)), P(I(1))])
+  add('select', inp=[P(1), P(0)], out=[P(0), P(1)])
+  return ops
+
+
+ZMENU = []
+for _o in _falsy_ops() + [BY_NAME['batch(2)'], BY_NAME['batch(1)']]:
+  if _o['name'] in BY_NAME:          # the same instance is in the main menu
+    _m = BY_NAME[_o['name']]
+    assert {k: repr(v) for k, v in _m.items()} == {
+        k: repr(v) for k, v in _o.items()}, _o['name']
+    _o = _m
+  else:
+    BY_NAME[_o['name']] = _o
+  ZMENU.append(_o['name'])
+assert len(set(ZMENU)) == len(ZMENU)
+# one instance per (operator, falsy key class, side) for the longer chains
+ZREDUCED = [
+    'select([0])', 'select([1],0)', 'select(())',
+    'apply(f2,[0])', 'apply(f2,())', 'apply(f1,[1],[0])', 'apply(f2,[1],(0,SKIP))',
+    'assign([1],f1,0)', 'assign([1],f1,())', 'assign([0],f1,[1])',
+    'assign({0:p},fd,[1])',
+    'filter(pred,[0])', 'filter(pred,())', 'filter(pred,{x:0})',
+    'sink(S,[0])', 'sink(S,())', 'batch(2)',
+]
 
 # reduced menus: one instance per key shape that matters for composition
 REDUCED = [
@@ -349,7 +489,9 @@ def clean(x):
 
 # ---- naming a difference -----------------------------------------------------
 
-BOOK = ('keep-skip', 'select-adds', 'sink-self')   # bookkeeping deviations
+# bookkeeping deviations (they change the build-time verdict)
+BOOK = ('keep-skip', 'select-adds', 'sink-self', 'select-falsy-out-is-in',
+        'assign-falsy-key-is-none')
 
 
 def _relevant(program):
@@ -379,6 +521,15 @@ def _relevant(program):
         add(i, 'skip-materialises')
     if op['kind'] == 'sink' and isinstance(op.get('inp'), dict):
       add(i, 'sink-no-kwargs')
+    # a falsy key spec taken for "not given"
+    if op['kind'] != 'select' and pref.spec_falsy(op.get('inp', SELF)):
+      add(i, 'falsy-in-is-self')
+    if (op['kind'] == 'select' and op.get('out') not in (None, [], ()) and
+        pref.spec_falsy(op['out'])):
+      add(i, 'select-falsy-out-is-in')
+    if (op['kind'] == 'assign' and op.get('out', []) != [] and
+        pref.spec_falsy(op['out'])):
+      add(i, 'assign-falsy-key-is-none')
   return sorted(out, key=lambda d: (out[d], d))
 
 
@@ -616,16 +767,19 @@ def check_run(st, program, stream_ids, call_too=True, built=None):
                    dict(det, call_error=repr(e)[:200]), replay=replay)
 
 
-STREAMS = [s for s in enums.sequences(range(3), 3)]
+STREAMS = [s for s in enums.sequences(MAIN_RECORDS, 3)]
+# the falsy-key world: its own records; streams of <= 2 (quick) / <= 3 records
+ZSTREAMS = {True: [s for s in enums.sequences(FALSY_RECORDS, 2)],
+            False: [s for s in enums.sequences(FALSY_RECORDS, 3)]}
 
 
-def check_program(st, names):
+def check_program(st, names, streams=None):
   program = [BY_NAME[n] for n in names]
   if check_build(st, program):
     sinks = {i: RecSink() for i, o in enumerate(program)
              if o['kind'] == 'sink'}
     built = (build_impl(program, sinks, make=False), sinks)
-    for s in STREAMS:
+    for s in STREAMS if streams is None else streams:
       check_run(st, program, s, built=built)
 
 
@@ -717,6 +871,18 @@ def _unit(progs):
   return st
 
 
+def _zunit(item):
+  quick, progs = item
+  st = Stats()
+  for names in progs:
+    check_program(st, names, ZSTREAMS[quick])
+  if progs:
+    st.sample({'program': list(progs[0]),
+               'streams': 'all %d sequences of <= %d records of the falsy-key '
+                          'world' % (len(ZSTREAMS[quick]), 2 if quick else 3)})
+  return st
+
+
 def run(ctx):
   quick = ctx.quick
   full = [o['name'] for o in MENU]
@@ -730,6 +896,14 @@ def run(ctx):
       if p not in seen:
         seen.add(p)
         progs.append(p)
+  zplan = [(ZMENU, 2), (ZREDUCED, 3)] if quick else [
+      (ZMENU, 2), (ZREDUCED, 4)]
+  zseen, zprogs = set(), []
+  for menu, n in zplan:
+    for p in programs(menu, n):
+      if p not in zseen:
+        zseen.add(p)
+        zprogs.append(p)
   ctx.rule = (
       'operator chains: %s (a chain is extended only while the reference '
       'accepts it: a rejected prefix decides the verdict); each accepted chain '
@@ -745,7 +919,21 @@ def run(ctx):
       'deep-equal their snapshot, untouched sub-trees are shared, updated '
       'sub-trees are none of the caller\'s objects. Plus assign(fn_batch_size=f, '
       'batch_size=b) over n <= %d batches of b rows, b in 1..3, f in 1..3b '
-      '(outputs aligned with the input batches). Menu: %s. Cases distinct by '
+      '(outputs aligned with the input batches). Falsy but valid keys: the '
+      'main menu holds Index(0) / the mapping key 0 / the empty tuple of keys '
+      'as output key of select and apply, assign key, input of filter and '
+      'sink (7 instances); and a second world - records {int-keyed dict '
+      '{0:..,1:..}, tuple, list of 3}, every stream of <= %d of them (%d '
+      'streams) - runs every chain of length <= 2 over a menu of %d instances '
+      'and of length <= %d over %d of them; that menu puts each of Index(0), '
+      'the mapping key 0, the empty tuple of keys () and the empty path Key() '
+      'into every key position of every operator: input key of select / '
+      'apply / assign / filter / sink (alone; as keyword argument; first or '
+      'second of a tuple of keys), output key of select and apply and assign '
+      'key (alone; in a tuple with SKIP before / after or with a second key; '
+      'in a dict-form spec), followed / preceded by batch(1|2); [1] and 1 are '
+      'the truthy controls. Same oracle clauses. Falsy-key menu: %s. Menu: '
+      '%s. Cases distinct by '
       'construction; non-trivial = non-empty stream.' % (
           ' and '.join('every chain of length <= %d over %s' % (n, what)
                        for (_, n), what in zip(plan, [
@@ -757,10 +945,15 @@ def run(ctx):
                            'two multi-entry ones' % len(shapes),
                            'the small menu of %d instances' % len(SMALL)]))),
           len(STREAMS),
-          4 if quick else 6, ', '.join(full)))
+          4 if quick else 6,
+          2 if quick else 3, len(ZSTREAMS[quick]), len(ZMENU), zplan[1][1],
+          len(ZREDUCED), ', '.join(ZMENU), ', '.join(full)))
   ctx.assumptions += [
       'callables are pure string-building functions of their arguments; the '
-      'filter predicates depend on the selected value',
+      'filter predicates depend on the selected value (no argument at all: '
+      'keep)',
+      'a key is what it addresses whatever its truth value in Python; only '
+      'select(output_keys=None or ()) and assign(()) mean "not given"',
       're-batching sizes (batch_size/fn_batch_size > 0 on apply/assign/select) '
       'are covered by C19; here only their build-time validity',
       'error kinds are not compared; on a reference error the implementation '
@@ -771,6 +964,10 @@ def run(ctx):
   ]
   units = [u for u in enums.chunks(ctx.shuffled(progs), 256 if quick else 1024)]
   ctx.pmap(_unit, units)
+  ctx.pmap(_zunit, [(quick, u) for u in enums.chunks(
+      ctx.shuffled(zprogs), 64 if quick else 256)])
+  ctx.notes['falsy_key_programs'] = len(zprogs)
+  ctx.notes['falsy_key_streams'] = len(ZSTREAMS[quick])
   nmax = 4 if quick else 6
   rb = [(b, f, n) for b in (1, 2, 3) for f in range(1, 3 * b + 1)
         for n in range(0, nmax + 1)]
